@@ -659,3 +659,89 @@ def histories(tier: str = "quick", known: list | None = None, **_: Any) -> dict:
 def replay_history(w: dict) -> dict:
     probs = run_history([tuple(h) for h in w["input"]["history"]], w["input"]["meta"])
     return {"reproduced": bool(probs), "observed": probs[:4]}
+
+
+# ------------------------------------------------------------------------------------------------ C16 option effects
+def _option_cases() -> dict:
+    from . import skeletons as sk
+
+    d = sk.endpoint_skeletons()["responses"]
+    return {
+        "meta_adds_only_metadata": d,
+        "package_version_override": d,
+        "project_and_package_name_override": d,
+        "generate_all_tags": sk.doc({"Leaf": sk.obj({"x": sk.INT})}, {"/t": {"get": {"operationId": "multiTag", "tags": ["first tag", "second"], "responses": {"200": sk.jresp(sk.ref("Leaf"))}}}}),
+    }
+
+
+def option_effect_one(option: str) -> list[str]:
+    cases = _option_cases()
+    d = cases[option]
+    probs: list[str] = []
+    root = gen.scratch("verif-opt-")
+    try:
+        if option == "meta_adds_only_metadata":
+            _, base = gen.generate(d, root, "base_none", meta="none")
+            fb = {k: v.replace(b"base_none", b"PKG") for k, v in gen.tree_files(base).items()}
+            for meta in ("poetry", "pdm", "setup"):
+                _, p = gen.generate(d, root, f"m_{meta}", meta=meta)
+                fp = {k: v.replace(f"m_{meta}_pkg".encode(), b"PKG") for k, v in gen.tree_files(p).items()}
+                for k, v in fb.items():
+                    if fp.get(k) != v:
+                        probs.append(f"meta={meta}: package file {k} differs from the meta=none generation")
+                extra = set(fp) - set(fb)
+                if extra != {"py.typed"}:
+                    probs.append(f"meta={meta}: unexpected extra package files {sorted(extra)}")
+                top = {q.name for q in (root / f"m_{meta}").iterdir() if q.name != f"m_{meta}_pkg"}
+                want = {"pyproject.toml", "README.md", ".gitignore"} | ({"setup.py"} if meta == "setup" else set())
+                if top != want:
+                    probs.append(f"meta={meta}: project files {sorted(top)} != {sorted(want)}")
+        elif option == "package_version_override":
+            import tomllib
+
+            gen.generate(d, root, "v", meta="poetry", package_version_override="9.9.9")
+            gen.generate(d, root, "w", meta="poetry")
+            tv = tomllib.loads((root / "v" / "pyproject.toml").read_text())["tool"]["poetry"]["version"]
+            tw = tomllib.loads((root / "w" / "pyproject.toml").read_text())["tool"]["poetry"]["version"]
+            if tv != "9.9.9" or tw != "1.0":
+                probs.append(f"version override: got {tv!r} / {tw!r}")
+            a = {k: v for k, v in gen.tree_files(root / "v" / "v_pkg").items()}
+            b = {k: v for k, v in gen.tree_files(root / "w" / "w_pkg").items()}
+            if {k: x.replace(b"v_pkg", b"P") for k, x in a.items()} != {k: x.replace(b"w_pkg", b"P") for k, x in b.items()}:
+                probs.append("package_version_override changed package files")
+        elif option == "project_and_package_name_override":
+            _, p1 = gen.generate(d, root, "one", meta="poetry", project_name_override="proj-x", package_name_override="pkg_x")
+            if not (root / "one").exists():
+                probs.append("output path not honoured")
+            if p1.name != "pkg_x" or not p1.exists():
+                probs.append(f"package dir {p1} does not follow package_name_override")
+        elif option == "generate_all_tags":
+            _, p0 = gen.generate(d, root, "t_first")
+            _, p1 = gen.generate(d, root, "t_all", generate_all_tags=True)
+            f0, f1 = gen.tree_files(p0), gen.tree_files(p1)
+            m0 = [k for k in f0 if k.startswith("api/") and k.endswith("multi_tag.py")]
+            m1 = [k for k in f1 if k.startswith("api/") and k.endswith("multi_tag.py")]
+            if m0 != ["api/first_tag/multi_tag.py"]:
+                probs.append(f"default: expected only the first tag, got {m0}")
+            if sorted(m1) != ["api/first_tag/multi_tag.py", "api/second/multi_tag.py"]:
+                probs.append(f"generate_all_tags: expected a module under every tag, got {m1}")
+            elif f1[m1[0]] != f1[m1[1]] or f1[m1[0]].replace(b"t_all", b"P") != f0[m0[0]].replace(b"t_first", b"P"):
+                probs.append("generate_all_tags: the modules under the tags are not identical to the single-tag module")
+        return probs
+    finally:
+        gen.cleanup(root)
+
+
+def option_effects(tier: str = "quick", known: list | None = None, **_: Any) -> dict:
+    wit, n = [], 0
+    for opt in _option_cases():
+        n += 1
+        probs = option_effect_one(opt)
+        if probs:
+            wit.append({"what": f"option {opt} has an undocumented effect", "input": {"option": opt}, "observed": probs[:4], "reproduced": True, "replay_func": "vlib.props.C16:replay"})
+    return result("violated" if wit else "holds", f"{n} option effects compared on generated trees", queries=n, witnesses=wit, cases=list(_option_cases()), stubs=["replay oracle: concrete runs, not a solver verdict"])
+
+
+def replay_option_effect(w: dict) -> dict:
+    probs = option_effect_one(w["input"]["option"])
+    return {"reproduced": bool(probs), "observed": probs[:4]}
